@@ -131,11 +131,11 @@ def run_impl(case):
             args.append(case["r"])
         out = f(*args)
     elif case["fn"] == 1:
-        out = calign.align_pair(sa, sb, [float(w) for w in case["wA"]], [float(w) for w in case["wB"]], pa, pb,
-                                float(case["gop"]), scale, factor, scorer, mode, case["r"], 2)
-        res["dist"] = out[3]
+        # guard of the distance formula: selfA + selfB = 0 makes the Python divide by zero
         denom = sum((1 + case["factor"]) * case["scorer"][x, x] for x in sa + sb)
-        res["dist_expected"] = None if denom == 0 else 1 - 2 * F(out[2]) / denom
+        out = calign.align_pair(sa, sb, [float(w) for w in case["wA"]], [float(w) for w in case["wB"]], pa, pb,
+                                float(case["gop"]), scale, factor, scorer, mode, case["r"], 2 if denom else 0)
+        res["dist"] = F(out[3]) if denom else None
     elif case["fn"] == 2:
         f = getattr(talign, TFN[mode])
         if mode == "dialign":
@@ -143,10 +143,9 @@ def run_impl(case):
         else:
             out = f(sa, sb, M, N, float(case["gop"]), scale, scorer)
     else:
-        out = talign.align_pair(sa, sb, float(case["gop"]), scale, scorer, mode, 2)
-        res["dist"] = out[3]
         denom = sum(case["scorer"][x, x] for x in sa + sb)
-        res["dist_expected"] = None if denom == 0 else 1 - 2 * F(out[2]) / denom
+        out = talign.align_pair(sa, sb, float(case["gop"]), scale, scorer, mode, 2 if denom else 0)
+        res["dist"] = F(out[3]) if denom else None
     res["out"] = canon_out(out, local)
     return res
 
@@ -181,7 +180,7 @@ def cin_lit(case):
 def render(case, res):
     return L.record("align_case", [
         cin_lit(case), L.nat(case["fn"]), COQ_MODE[case["mode"]], L.b(case["sec"]), L.q(case["gop"]),
-        result_lit(res["out"]), "None"])
+        result_lit(res["out"]), L.opt(res.get("dist"), L.q)])
 
 
 BITS = {0: "correspondence: model output (rows and score) differs from implementation output",
